@@ -31,9 +31,8 @@ def cells_for(ctx, scheme, plens=(0,), thorough_depth=3):
     ctx.require_actions(r, ["Tamper", "Check"])
     if not r.replays:
         raise verif.ToolError("TLC emitted no cells for scheme " + scheme)
-    acc = [b for b in r.replays if b["accept"]]
-    if not any(b["ops"] for b in acc):
-        raise verif.ToolError("vacuous enumeration: no restoring tamper sequence for " + scheme)
+    if not any(b["accept"] for b in r.replays) or not any(not b["accept"] for b in r.replays):
+        raise verif.ToolError("vacuous enumeration: accepting or rejecting cells missing for " + scheme)
     return r.replays
 
 
